@@ -76,6 +76,7 @@ type PathResult struct {
 	FuncsSeen    map[string]bool
 	NDec         int
 	RaceChecks   int
+	CrossChecked, CrossDisagree int
 }
 
 // Witness is a concrete model of a completed path (reachability twin and
@@ -133,6 +134,7 @@ type Exec struct {
 	funcsSeen map[string]bool
 	fnSeen    map[*ssa.Function]bool
 	sentinels map[*ssa.Global]Value
+	timeLocs  map[string]*Value // time.Local / time.UTC singletons
 
 	ss          *schedState
 	callDepth   int
@@ -143,6 +145,10 @@ type Exec struct {
 	envTrace    []int64
 	libPrio     bool
 	raceChecks  int
+	cross         *Solver // second solver for differential checks of discharged obligations (thorough tier)
+	crossRate     int
+	crossChecked  int
+	crossDisagree int
 }
 
 func (e *Exec) curSite() string {
@@ -527,6 +533,19 @@ func (e *Exec) Assert(c *Term, msg string) {
 	switch r {
 	case Unsat:
 		e.asserts++
+		if e.cross != nil && e.crossRate > 0 && e.asserts%e.crossRate == 0 {
+			// differential check of the encoding: the same query, from scratch, on a second solver
+			e.cross.BeginPath()
+			for _, t := range e.pc {
+				e.cross.Assert(e.ctx, t)
+			}
+			r2, _ := e.cross.Check(e.ctx, []*Term{nc}, false, nil)
+			e.crossChecked++
+			if r2 == Sat {
+				e.crossDisagree++
+				e.inconcl = append(e.inconcl, fmt.Sprintf("solver disagreement on assertion %q at %s: primary unsat, second solver sat", msg, e.curSite()))
+			}
+		}
 		if slowLog {
 			fmt.Fprintf(os.Stderr, "ASSERTQ %q %s\n", msg, nc.String())
 		}
